@@ -392,7 +392,9 @@ theorem decodeQuestionsM_chainC (s : State) (hw : WInv s) :
     ∀ (qs : List QItC) (p e : Nat), QChainC s qs p e → e ≤ s.cursor →
       ∀ (acc : List Message.Question) (a : Message.Acc),
       ∃ l a', Message.decodeQuestions (s.octets.extract 0 s.cursor) qs.length p acc a =
-          some (e, acc.reverse ++ l, a') ∧ All2 MQMatch qs l := by
+          some (e, acc.reverse ++ l, a') ∧ All2 MQMatch qs l ∧
+          a'.extents = (qs.map fun it => (it.a, it.a + it.k + 4)).reverse ++ a.extents ∧
+          a'.item = a.item + qs.length := by
   have hcs : s.cursor ≤ s.octets.size := Nat.le_trans hw.cur_av hw.av_size
   have hsz := extract_size s.octets s.cursor hcs
   intro qs
@@ -401,7 +403,7 @@ theorem decodeQuestionsM_chainC (s : State) (hw : WInv s) :
     intro p e h _ acc a
     simp only [QChainC] at h
     subst h
-    exact ⟨[], a, by simp [Message.decodeQuestions], .nil⟩
+    exact ⟨[], a, by simp [Message.decodeQuestions], .nil, by simp, rfl⟩
   | cons x r ih =>
     intro p e h he acc a
     obtain ⟨h1, ⟨hit, hnm, hby⟩, h3⟩ := h
@@ -415,9 +417,10 @@ theorem decodeQuestionsM_chainC (s : State) (hw : WInv s) :
       be16_of_bytesAt_mod (bytesAt_extract_prefix hcs b1 (by rw [hl2]; omega))
     have e2 : be16 (s.octets.extract 0 s.cursor) (x.a + x.k + 2) = x.q.qclass % 65536 :=
       be16_of_bytesAt_mod (bytesAt_extract_prefix hcs b2 (by rw [hl2]; omega))
-    obtain ⟨l, a', hl, hfa⟩ := ih _ _ h3 he (⟨w, x.q.qtype % 65536, x.q.qclass % 65536⟩ :: acc)
+    obtain ⟨l, a', hl, hfa, hext, hitem⟩ := ih _ _ h3 he (⟨w, x.q.qtype % 65536, x.q.qclass % 65536⟩ :: acc)
       { extents := (x.a, x.a + x.k + 4) :: a.extents, names := occ :: a.names, item := a.item + 1 }
-    refine ⟨⟨w, x.q.qtype % 65536, x.q.qclass % 65536⟩ :: l, a', ?_, .cons ⟨hcase, hex, rfl, rfl⟩ hfa⟩
+    refine ⟨⟨w, x.q.qtype % 65536, x.q.qclass % 65536⟩ :: l, a', ?_, .cons ⟨hcase, hex, rfl, rfl⟩ hfa,
+      by rw [hext]; simp, by rw [hitem]; simp; omega⟩
     simp only [List.length_cons, Message.decodeQuestions, hd]
     rw [if_pos (by rw [hsz]; omega), e1, e2, hl]
     simp
@@ -426,7 +429,9 @@ theorem decodeRecordsM_chainC (s : State) (hw : WInv s) :
     ∀ (rs : List RItC) (p e : Nat), RChainC s rs p e → e ≤ s.cursor → (∀ it ∈ rs, LayoutStable it.r) →
       ∀ n, n ≤ rs.length → ∀ (acc : List Message.Record) (a : Message.Acc),
       ∃ l p' a', Message.decodeRecords (s.octets.extract 0 s.cursor) n p acc a = some (p', acc.reverse ++ l, a') ∧
-        All2 MRecMatch (rs.take n) l ∧ RChainC s (rs.drop n) p' e := by
+        All2 MRecMatch (rs.take n) l ∧ RChainC s (rs.drop n) p' e ∧
+        a'.extents = ((rs.take n).map fun it => (it.a, it.a + it.k + 10 + it.rdlen)).reverse ++ a.extents ∧
+        a'.item = a.item + n := by
   have hcs : s.cursor ≤ s.octets.size := Nat.le_trans hw.cur_av hw.av_size
   have hsz := extract_size s.octets s.cursor hcs
   intro rs
@@ -435,11 +440,11 @@ theorem decodeRecordsM_chainC (s : State) (hw : WInv s) :
     intro p e h _ _ n hn acc a
     have : n = 0 := by simpa using hn
     subst this
-    exact ⟨[], p, a, by simp [Message.decodeRecords], .nil, h⟩
+    exact ⟨[], p, a, by simp [Message.decodeRecords], .nil, h, by simp, rfl⟩
   | cons x r ih =>
     intro p e h he hst n hn acc a
     cases n with
-    | zero => exact ⟨[], p, a, by simp [Message.decodeRecords], .nil, h⟩
+    | zero => exact ⟨[], p, a, by simp [Message.decodeRecords], .nil, h, by simp, rfl⟩
     | succ n =>
       obtain ⟨h1, ⟨hit, hnm, hby, hb, ts, hct, hrd⟩, h4⟩ := h
       subst h1
@@ -460,12 +465,13 @@ theorem decodeRecordsM_chainC (s : State) (hw : WInv s) :
         rw [be16_extract _ _ _ hcs (by omega)]; exact hb
       obtain ⟨gf, df, ns, hgf, hdf, hfm⟩ := decodeRdata_rdAt s hw a.item x.m x.r.ty x.r.cls (x.r.ty % 65536)
         (x.r.cls % 65536) x.r.rdata (x.a + x.k + 10) x.rdlen ts hct (hst x List.mem_cons_self) hrd (by omega)
-      obtain ⟨l, p', a', hl, hfa, hch⟩ := ih _ _ h4 he (fun it hx => hst it (List.mem_cons_of_mem _ hx)) n
+      obtain ⟨l, p', a', hl, hfa, hch, hext, hitem⟩ := ih _ _ h4 he (fun it hx => hst it (List.mem_cons_of_mem _ hx)) n
         (by simpa using hn) (⟨w, x.r.ty % 65536, x.r.cls % 65536, x.r.ttl % 4294967296, df⟩ :: acc)
         { extents := (x.a, x.a + x.k + 10 + x.rdlen) :: a.extents,
           names := ns.reverse ++ (occ :: a.names), item := a.item + 1 }
       refine ⟨⟨w, x.r.ty % 65536, x.r.cls % 65536, x.r.ttl % 4294967296, df⟩ :: l, p', a', ?_,
-        .cons ⟨hcase, hex, rfl, rfl, rfl, gf, hgf, hfm⟩ (by simpa using hfa), by simpa using hch⟩
+        .cons ⟨hcase, hex, rfl, rfl, rfl, gf, hgf, hfm⟩ (by simpa using hfa), by simpa using hch,
+        by rw [hext]; simp, by rw [hitem]; simp; omega⟩
       simp only [Message.decodeRecords, hd]
       rw [if_pos (by rw [hsz]; omega)]
       simp only [e1, e2, e3, e8]
@@ -473,6 +479,10 @@ theorem decodeRecordsM_chainC (s : State) (hw : WInv s) :
       simp only [hdf, hl]
       simp
 
+
+/-- where a question / record ends -/
+def qEnd (it : QItC) : Nat := it.a + it.k + 4
+def rEnd (it : RItC) : Nat := it.a + it.k + 10 + it.rdlen
 
 /-! ### the whole message -/
 
@@ -520,7 +530,9 @@ theorem finish_refines (macFn : Tsig → List UInt8 → List UInt8) (s : State) 
       (∀ it ∈ qs, P it.m) ∧ (∀ it ∈ ian ++ ins ++ iar, P it.m) ∧
       qs.map (·.m) = mb.qs ∧ ian.map (·.m) = mb.an ∧ ins.map (·.m) = mb.ns ∧
       iar.map (·.m) = mb.ar ++ (optRecs' s.edns).map (fun _ => s.mode) ++
-        (tsigRecs s.tsig mac).map (fun _ => s.mode) := by
+        (tsigRecs s.tsig mac).map (fun _ => s.mode) ∧
+      d.extents.map (·.2) = qs.map qEnd ++ (ian ++ ins ++ iar).map rEnd ∧
+      ∃ rs0 ex, ian ++ ins ++ iar = rs0 ++ ex ∧ QChainC s qs 12 s.rrStart ∧ RChainC s rs0 s.rrStart s.cursor := by
   unfold finish at hf
   cases hw : finishWithMac macFn s with
   | mk r sF =>
@@ -538,7 +550,7 @@ theorem finish_refines (macFn : Tsig → List UInt8 → List UInt8) (s : State) 
       have hcF : sF.cursor ≤ sF.octets.size := by omega
       have hmsz : m.size = sF.cursor := by rw [← hm, hlc]; exact extract_size _ _ hcF
       have hle : sF.cursor ≤ 65535 := by omega
-      obtain ⟨wF, _, hhdr, hcnt, qs, rs, hq, hr, hqm, hrm, hqP, hrP, hqM, hrM⟩ :=
+      obtain ⟨wF, _, hhdr, hcnt, qs, rs, hq, hr, hqm, hrm, hqP, hrP, hqM, hrM, rs0, ex, hrs0, hq0, hr0⟩ :=
         finishWithMac_finLayC macFn s b mb hI hL len mc sF hw hle
       rw [hlc] at hm
       subst hm
@@ -583,7 +595,7 @@ theorem finish_refines (macFn : Tsig → List UInt8 → List UInt8) (s : State) 
             · exact layoutStable_opt _ _ h3
           · exact layoutStable_tsig _ _ _ h2
       -- questions
-      obtain ⟨lq, a1, hdq, hmq⟩ := decodeQuestionsM_chainC sF wF qs 12 s.rrStart hq hrrle [] {}
+      obtain ⟨lq, a1, hdq, hmq, hx1, _⟩ := decodeQuestionsM_chainC sF wF qs 12 s.rrStart hq hrrle [] {}
       rw [hql] at hdq
       -- the sections of the given records
       obtain ⟨ha1, ha2⟩ := map_take_eq (·.r) rs (b.an ++ b.ns) (b.ar ++ optRecs' s.edns ++ tsigRecs s.tsig mc)
@@ -599,11 +611,11 @@ theorem finish_refines (macFn : Tsig → List UInt8 → List UInt8) (s : State) 
       have hmanl : mb.an.length = s.ancount := by rw [ml1]; exact hanl
       have hmnsl : mb.ns.length = s.nscount := by rw [ml2]; exact hnsl
       -- the three record sections
-      obtain ⟨la, p2, a2, hda, hma, hch2⟩ := decodeRecordsM_chainC sF wF _ _ _ hr (Nat.le_refl _) hst s.ancount
+      obtain ⟨la, p2, a2, hda, hma, hch2, hx2, _⟩ := decodeRecordsM_chainC sF wF _ _ _ hr (Nat.le_refl _) hst s.ancount
         (by omega) [] a1
-      obtain ⟨ln, p3, a3, hdn, hmn, hch3⟩ := decodeRecordsM_chainC sF wF _ _ _ hch2 (Nat.le_refl _)
+      obtain ⟨ln, p3, a3, hdn, hmn, hch3, hx3, _⟩ := decodeRecordsM_chainC sF wF _ _ _ hch2 (Nat.le_refl _)
         (fun it hx => hst it (List.mem_of_mem_drop hx)) s.nscount (by rw [List.length_drop]; omega) [] a2
-      obtain ⟨lr, p4, a4, hdr, hmr, hch4⟩ := decodeRecordsM_chainC sF wF _ _ _ hch3 (Nat.le_refl _)
+      obtain ⟨lr, p4, a4, hdr, hmr, hch4, hx4, _⟩ := decodeRecordsM_chainC sF wF _ _ _ hch3 (Nat.le_refl _)
         (fun it hx => hst it (List.mem_of_mem_drop (List.mem_of_mem_drop hx))) s.arcount
         (by rw [List.length_drop, List.length_drop]; omega) [] a3
       have hnil : (((rs.drop s.ancount).drop s.nscount).drop s.arcount) = [] := by
@@ -636,7 +648,8 @@ theorem finish_refines (macFn : Tsig → List UInt8 → List UInt8) (s : State) 
           · rcases List.mem_append.mp hx with hx | hx
             · exact hrP it (List.mem_of_mem_take hx)
             · exact hrP it (List.mem_of_mem_drop (List.mem_of_mem_take hx))
-          · exact hrP it (List.mem_of_mem_drop (List.mem_of_mem_drop hx)), hqM, ?_, ?_, ?_⟩
+          · exact hrP it (List.mem_of_mem_drop (List.mem_of_mem_drop hx)), hqM, ?_, ?_, ?_, ?_,
+        rs0, ex, by rw [← hrs0, List.append_assoc, List.take_append_drop, List.take_append_drop], hq0, hr0⟩
       · unfold Message.specDecodeMsg
         rw [if_neg (by rw [hsz']; omega)]
         simp only [e4, e6, e8, e10, hdq, hda, hdn, hdr]
@@ -664,6 +677,12 @@ theorem finish_refines (macFn : Tsig → List UInt8 → List UInt8) (s : State) 
       · have : rs.drop (mb.an ++ mb.ns).length = (rs.drop s.ancount).drop s.nscount := by
           rw [List.drop_drop, List.length_append, hmanl, hmnsl]
         rw [← this]; exact hm2
+      · -- the extents
+        show (a4.extents.reverse).map (·.2) = _
+        rw [hx4, htk, hx3, hx2, hx1]
+        simp only [List.reverse_append, List.reverse_reverse, List.map_append, List.map_map, List.append_nil,
+          List.reverse_nil, List.nil_append, List.append_assoc]
+        rfl
 
 
 /-! ### stated on the questions and records given -/
@@ -773,7 +792,7 @@ theorem refines_item_modes (macFn : Tsig → List UInt8 → List UInt8) (hmac : 
         · exact hT.ns r h2
       · exact hT.ar r h1
     exact layoutStable_of_lt hr.2.1 hr.2.2.1
-  obtain ⟨d, qs, ian, ins, iar, hd, hh, hq, han, hns, har, mq, ma, mn, mr, _, _, hqM, haM, hnM, hrM⟩ :=
+  obtain ⟨d, qs, ian, ins, iar, hd, hh, hq, han, hns, har, mq, ma, mn, mr, _, _, hqM, haM, hnM, hrM, _⟩ :=
     finish_refines macFn sF B MB hI hL hst m mac hf hsz
   refine ⟨d, hd, hh, ?_, ?_, ?_, ?_⟩
   · rw [← hq, ← hqM]; exact questions_of_items_modes mq
